@@ -8,6 +8,7 @@ CONSTANTS
   MaxOps = 9
   MaxCredit = 5
   MaxTick = 3
+  Limit = 2
 SPECIFICATION Spec
 INVARIANT Emit
 CHECK_DEADLOCK FALSE
